@@ -1,9 +1,14 @@
 import PyrefactModel.Style
+import PyrefactModel.C19.ScopeLemmas
 /-!
-# C19 — renaming: construction of the new name (property theorems)
+# C19 — renaming (property theorems)
 
-Use-site discovery against Python's scoping rules is outside every model here (`RenameCaptureFree` is kept as
-a definition, not proved); what is proved is about the name that is constructed.
+Two parts.  The name that is constructed (`Style`).  And capture-freedom against Python's scoping rules (`C19/Scope`):
+a renaming whose new name is fresh and whose set of renamed occurrences is closed under "refers to the same variable"
+keeps the binding structure of the whole program (`rename_capture_free`); the hypotheses are decidable
+(`rename_check_sound`) and are evaluated by the harness on every pure renaming a rule performs; both hypotheses are
+needed (`merge_counterexample`, `split_counterexample`).  Which occurrences the rules select (`_get_uses_of`) is code,
+not model: that is what the translation validation and the execution oracle look at.
 -/
 namespace C19
 open Style
@@ -31,7 +36,65 @@ theorem rename_valid_identifier_counterexample : ¬ RenameValidIdentifier := by
   have := h "_99_YbzA".toList false false "99_ybz_a".toList (by decide) (by decide)
   exact this (by decide)
 
-/-- what "capture-free" would mean; needs Python's scoping rules — stated, not proved -/
-def RenameCaptureFree : Prop := True
+/-- **capture-free renaming**: new name fresh, neither name declared global / nonlocal, renamed occurrences all carry the
+old name and are closed under "same variable" ⟹ two occurrences refer to the same variable afterwards iff they did
+before, for every program, scope nesting and set of occurrences -/
+theorem rename_capture_free (P : Prog) (R : Occ → Bool) (old new : String) (hne : new ≠ old)
+    (hR : ∀ o ∈ P.occs, R o = true → o.name = old) (hfresh : ∀ o ∈ P.occs, o.name ≠ new)
+    (hdo : ∀ d ∈ P.decls, d.2.1 ≠ old) (hdn : ∀ d ∈ P.decls, d.2.1 ≠ new)
+    (hclosed : ∀ o ∈ P.occs, R o = true → ∀ o' ∈ P.occs, var P o' = var P o → R o' = true) :
+    ∀ o ∈ P.occs, ∀ o' ∈ P.occs,
+      (var (rename P R new) (ren R new o) = var (rename P R new) (ren R new o') ↔ var P o = var P o') :=
+  rename_partition P R old new hne hR hfresh hdo hdn hclosed
+
+/-- … and every occurrence's variable stays in the scope that owned it -/
+theorem rename_scope_kept (P : Prog) (R : Occ → Bool) (old new : String) (hne : new ≠ old)
+    (hR : ∀ o ∈ P.occs, R o = true → o.name = old) (hfresh : ∀ o ∈ P.occs, o.name ≠ new)
+    (hdo : ∀ d ∈ P.decls, d.2.1 ≠ old) (hdn : ∀ d ∈ P.decls, d.2.1 ≠ new)
+    (hclosed : ∀ o ∈ P.occs, R o = true → ∀ o' ∈ P.occs, var P o' = var P o → R o' = true) :
+    ∀ o ∈ P.occs, (var (rename P R new) (ren R new o)).1 = (var P o).1 := by
+  intro o ho
+  rw [rename_var P R old new hne hR hfresh hdo hdn hclosed o ho]
+
+/-- the check the harness runs on the renamings that the rules perform establishes exactly those hypotheses -/
+theorem rename_check_sound (P : Prog) (R : Occ → Bool) (old new : String) (h : checkHyps P R old new = true) :
+    ∀ o ∈ P.occs, ∀ o' ∈ P.occs,
+      (var (rename P R new) (ren R new o) = var (rename P R new) (ren R new o') ↔ var P o = var P o') :=
+  checkHyps_sound P R old new h
+
+/-- `def f(): fooBar = 1; FooBar = 2; print(fooBar, FooBar)` as occurrences (scope 1 = f, scope 0 = module) -/
+def twoNames : Prog :=
+  { occs := [⟨"fooBar", 1, [0], true⟩, ⟨"FooBar", 1, [0], true⟩, ⟨"print", 1, [0], false⟩, ⟨"fooBar", 1, [0], false⟩,
+             ⟨"FooBar", 1, [0], false⟩], decls := [] }
+
+/-- non-vacuity: renaming `fooBar` (both occurrences) to the unused `foo_bar` meets the hypotheses -/
+example : checkHyps twoNames (fun o => o.name == "fooBar") "fooBar" "foo_bar" = true := by decide
+
+/-- freshness is needed: once `fooBar` is `foo_bar`, renaming `FooBar` to `foo_bar` as well merges two variables (what the
+convention rule did before the repair recorded in KNOWN_FINDINGS.txt) -/
+theorem merge_counterexample :
+    let P := rename twoNames (fun o => o.name == "fooBar") "foo_bar"
+    let R : Occ → Bool := fun o => o.name == "FooBar"
+    checkHyps P R "FooBar" "foo_bar" = false ∧
+      var P ⟨"foo_bar", 1, [0], true⟩ ≠ var P ⟨"FooBar", 1, [0], true⟩ ∧
+      var (rename P R "foo_bar") (ren R "foo_bar" ⟨"foo_bar", 1, [0], true⟩)
+        = var (rename P R "foo_bar") (ren R "foo_bar" ⟨"FooBar", 1, [0], true⟩) := by
+  decide
+
+/-- closedness is needed: renaming the assignment but not the read splits a variable (the read now refers to a global) -/
+theorem split_counterexample :
+    let R : Occ → Bool := fun o => o.name == "fooBar" && o.binding
+    checkHyps twoNames R "fooBar" "foo_bar" = false ∧
+      var twoNames ⟨"fooBar", 1, [0], true⟩ = var twoNames ⟨"fooBar", 1, [0], false⟩ ∧
+      var (rename twoNames R "foo_bar") (ren R "foo_bar" ⟨"fooBar", 1, [0], true⟩)
+        ≠ var (rename twoNames R "foo_bar") (ren R "foo_bar" ⟨"fooBar", 1, [0], false⟩) := by
+  decide
+
+/-- Python's lookup in the model: a class scope is not searched from a method, `global` sends a free variable of an inner
+function to the module — `class A: x = 1; def m(self): return x` and `def h(): x = 1; def f(): global x; def g(): x` -/
+example : var { occs := [⟨"x", 1, [0], true⟩, ⟨"x", 2, [0], false⟩], decls := [] } ⟨"x", 2, [0], false⟩ = (0, "x") := by
+  decide
+example : var { occs := [⟨"x", 1, [0], true⟩, ⟨"x", 3, [2, 1, 0], false⟩], decls := [(2, "x", Decl.glob)] }
+    ⟨"x", 3, [2, 1, 0], false⟩ = (0, "x") := by decide
 
 end C19
